@@ -7,7 +7,7 @@
    solver Brute it is PROVED on a decidable syntactic class (C05_brute_contract), which makes the C05_brute_enum_*
    theorems unconditional. *)
 From Coq Require Import QArith Qabs List.
-From Aldy Require Import Base Consts Lp Enum Brute LpProofs EnumProofs BruteProofs Consts_here Consts_wf.
+From Aldy Require Import Base Consts Lp Enum Brute LpProofs EnumProofs BruteProofs Consts_here Consts_wf Exprs_lp Tied_lp.
 Import ListNotations.
 Open Scope Q_scope.
 
@@ -331,3 +331,18 @@ Proof.
 Qed.
 Goal True. idtac "ASSUME C05_contract_optimality_needed". Abort.
 Print Assumptions C05_contract_optimality_needed.
+
+(* ================================================================= tie to the current source tree
+   The decision expressions below are regenerated from /repo's Python AST on every run (harness/gen_exprs.py -> gen/Exprs_lp.v);
+   each theorem says that the model's definition IS that expression, for all arguments.  A change of the expression in the code
+   breaks the obligation even when no sampled input distinguishes old and new behaviour. *)
+Theorem C05_tie_stop_test : forall (c : consts) gap o b,
+  Enum.stop (c_solver_precision c) o ((1 + gap) * b) = lp_stop o (lp_ub gap b) (c_solver_precision c) (c_solution_precision c).
+Proof. exact lp_loop_stop_tied. Qed.
+Goal True. idtac "ASSUME C05_tie_stop_test". Abort.
+Print Assumptions C05_tie_stop_test.
+
+Theorem C05_tie_cut : forall vv, r_rhs (cut_row vv) == lp_cut_rhs (inZ (Z.of_nat (length vv))).
+Proof. exact lp_cut_tied. Qed.
+Goal True. idtac "ASSUME C05_tie_cut". Abort.
+Print Assumptions C05_tie_cut.
